@@ -62,6 +62,27 @@ def canon_hex(text: str, table: dict[str, str]) -> str:
 # scratch project: simulated storage and clock
 
 
+def sweep_stale_scratch(max_age_s: float = 8 * 3600) -> int:
+	"""Remove scratch projects left behind by killed runs (older than any run can be)."""
+	base = scratch_base()
+	n = 0
+	now = time.time()
+	try:
+		names = os.listdir(base)
+	except OSError:
+		return 0
+	for name in names:
+		if name.startswith('tranpsim-') or name.startswith('tranpmut-'):
+			full = os.path.join(base, name)
+			try:
+				if now - os.stat(full).st_mtime > max_age_s:
+					shutil.rmtree(full, ignore_errors=True)
+					n += 1
+			except OSError:
+				pass
+	return n
+
+
 def scratch_base() -> str:
 	for cand in ('/dev/shm', tempfile.gettempdir()):
 		if os.path.isdir(cand) and os.access(cand, os.W_OK):
